@@ -1,13 +1,360 @@
-"""C20 -- placeholder until the check is built"""
+"""C20 -- each workflow step is all-or-nothing and independent steps commute"""
+
+import itertools
+import os
+import shutil
+import sqlite3
+
+from .. import core, data, faults, gen_planted
+
 PROPERTY = 'C20'
-LEVEL = 'exploration'
-SHARDS = {'quick': 1, 'thorough': 1}
-RULE = 'not built yet'
+LEVEL = 'fault_enumeration'
+SHARDS = {'quick': 4, 'thorough': 16}
+RULE = (
+    'Planted datasets with >= 3 gap-free stretches are loaded, then each of the steps classify, set-zeta-grid, '
+    'set-curvature, rise, recession is run through spowtd.user_interface.main under a sqlite3 connection factory '
+    'that logs every execute / executemany / executescript / commit.  For EVERY statement index of the fault-free '
+    'trace an sqlite3.OperationalError is injected before and after the statement; the process is SIGKILLed (forked '
+    'child) before and after statement indices (quick: every 3rd, thorough: every one); executemany calls are '
+    'interrupted after r parameter rows (quick: first, middle, last; thorough: every row).  After each fault the '
+    'logical dump of the file (sorted rows of every table, read through a fresh connection so that a hot journal is '
+    'rolled back as the next command would) must equal the dump before the step or the dump of a clean run, and a '
+    're-run of the step must end in the clean result.  Histories: all 12 orders of {classify, set-zeta-grid, '
+    'set-curvature} x {rise, recession}, each with 0-3 failing attempts interleaved (duplicate step, injected fault, '
+    'kill), must end in the same dump.  Non-trivial: fault point after the first write of the step; distinct (dataset, '
+    'step, index, mode) counted.'
+)
+ASSUMPTIONS = [
+    'faults are injected at the Python sqlite3 API boundary (statement granularity); SIGKILL of the process stands for a crash, the file system is assumed to honour SQLite\'s journal',
+    'exhaustive over the statement indices of the datasets driven, not over datasets',
+]
+EXHAUSTIVE = {'quick': False, 'thorough': True}
+SIZES = {'quick': dict(datasets=2, kill_every=3, rows='sample', histories=12), 'thorough': dict(datasets=8, kill_every=1, rows='all', histories=12)}
+REQUIRED = {
+    tier: {
+        'exception-faults-injected': 400,
+        'kill-faults-injected': 60,
+        'row-faults-injected': 6,
+        'faults-after-first-write': 200,
+        'reruns-after-fault-checked': 400,
+        'histories-compared': 12,
+        'histories-with-failed-attempts': 6,
+        'step:classify': 1, 'step:set-zeta-grid': 1, 'step:set-curvature': 1, 'step:rise': 1, 'step:recession': 1,
+        'commit-statements-seen': 5,
+    }
+    for tier in ('quick', 'thorough')
+}
+MIN_NONTRIVIAL = {'quick': 200, 'thorough': 3000}
+
+STEPS = [
+    ('classify', lambda c: ['classify', 'X', '-s', repr(c['sthr']), '-j', repr(c['jthr'])]),
+    ('set-zeta-grid', lambda c: ['set-zeta-grid', 'X', '-d', repr(c['grid_step'])]),
+    ('set-curvature', lambda c: ['set-curvature', 'X', '1.5']),
+    ('rise', lambda c: ['rise', 'X']),
+    ('recession', lambda c: ['recession', 'X']),
+]
+
+
+def dump(path):
+    connection = faults.plain_connect(path)
+    try:
+        return data.dump(connection)
+    finally:
+        connection.close()
+
+
+def run_step(argv, db, at=None, mode=None, row=None):
+    import gc
+
+    faults.reset(at, mode, row)
+    try:
+        status, exc = data.cli([db if a == 'X' else a for a in argv])
+    finally:
+        n = faults.STATE['n']
+        log = list(faults.STATE['log'])
+        rows = dict(faults.STATE['rows'])
+        fired = faults.STATE['fired']
+        faults.disable()
+    if exc is not None:
+        # the traceback keeps the step's connection (and its locks) alive; a
+        # real command would have exited, so describe the exception and let go
+        desc = core.describe_exception(exc)
+        exc.__traceback__ = None
+        exc = FailedStep(desc)
+    gc.collect()
+    return status, exc, n, log, rows, fired
+
+
+class FailedStep(Exception):
+    def __init__(self, desc):
+        super().__init__(desc['message'])
+        self.desc = desc
+
+
+def run_step_killed(argv, db, at, mode, row=None):
+    """Run the step in a forked child that SIGKILLs itself at the fault point.
+    Returns the child's wait status"""
+    pid = os.fork()
+    if pid == 0:
+        try:
+            faults.reset(at, mode, row)
+            data.cli([db if a == 'X' else a for a in argv])
+        finally:
+            os._exit(0)
+    _, status = os.waitpid(pid, 0)
+    return status
+
+
+def fresh_copy(src, dst):
+    for f in (dst, dst + '-journal', dst + '-wal', dst + '-shm'):
+        if os.path.exists(f):
+            os.remove(f)
+    shutil.copy(src, dst)
+
+
+def make_dataset(ctx, rng, index):
+    """A planted dataset with >= 3 gap-free stretches on which both curves
+    assemble (checked by a dry run), loaded into a file through the CLI"""
+    from .. import curves_common
+
+    case = None
+    for _ in range(200):
+        cand = gen_planted.gen(rng, gaps=2, n_events=rng.randint(5, 9), step=rng.choice([1800, 3600]), grid_step=rng.choice([1.0, 2.0, 2.5]))
+        if len(cand['rain']) >= 260 or len(cand['dropped']) < 2:
+            continue
+        probe = os.path.join(ctx.workdir, 'probe.sqlite3')
+        if curves_common.make_curves_db(ctx, cand, probe) is None:
+            os.remove(probe)
+            case = cand
+            break
+    if case is None:
+        return None, None
+    paths = data.write_case_files(case, ctx.workdir, 'a{}'.format(index))
+    base = os.path.join(ctx.workdir, 'a{}_base.sqlite3'.format(index))
+    if os.path.exists(base):
+        os.remove(base)
+    status, exc = data.cli(['load', base, '-p', paths[0], '-e', paths[1], '-z', paths[2], '--timezone', 'UTC'])
+    if exc is not None or status != 0:
+        return None, None
+    return case, base
+
+
+def enumerate_step_faults(ctx, case, name, argv, cur, tag, sizes):
+    """All fault points of one step starting from database file `cur`.
+    Returns the path of the cleanly stepped database (or None)"""
+    rec = ctx.rec
+    clean = os.path.join(ctx.workdir, '{}_{}_clean.sqlite3'.format(tag, name))
+    work = os.path.join(ctx.workdir, '{}_{}_t.sqlite3'.format(tag, name))
+    fresh_copy(cur, clean)
+    status, exc, N, log, rows, _ = run_step(argv, clean)
+    if exc is not None or status != 0:
+        rec.hit('step-failed-without-fault (C06 reports it): ' + name)
+        return None
+    rec.hit('step:' + name)
+    rec.hit('statements:' + name, N)
+    rec.hit('commit-statements-seen', sum(1 for k, _ in log if k == 'commit'))
+    pre = dump(cur)
+    post = dump(clean)
+    if pre == post:
+        rec.inconclusive_because('step {} changed nothing'.format(name))
+        return clean
+    first_write = next((i + 1 for i, (k, sql) in enumerate(log) if sql.upper().startswith(('INSERT', 'UPDATE', 'DELETE')) or k.startswith('executemany')), 1)
+    scase = {'dataset': case, 'step': name, 'argv': argv}
+
+    def verdict(label, at, mode, row=None):
+        """After the fault: state must be pre or post; rerun must give post"""
+        got = dump(work)
+        w = {'step': name, 'statement_index': at, 'of': N, 'mode': mode, 'row': row, 'statement': log[at - 1][1] if at - 1 < len(log) else None}
+        if got != pre and got != post:
+            changed = [t for t in got if got[t] != pre.get(t)]
+            partial = [t for t in got if got[t] != post.get(t)]
+            rec.violation('mixed-state-after-{}:{}'.format(label, name), dict(w, tables_changed=changed, tables_incomplete=partial), dict(scase, fault=[at, mode, row]), 'fault')
+            return
+        state = 'pre' if got == pre else 'post'
+        rec.hit('state-after-fault:' + state)
+        status2, exc2, *_ = run_step(argv, work)
+        again = dump(work)
+        if again != post:
+            rec.violation('rerun-after-{}-does-not-reach-the-clean-result:{}'.format(label, name),
+                          dict(w, state_after_fault=state, rerun_exception=exc2.desc if exc2 else None), dict(scase, fault=[at, mode, row]), 'fault')
+            return
+        rec.hit('reruns-after-fault-checked')
+        if at >= first_write:
+            rec.hit('faults-after-first-write')
+            rec.mark_nontrivial('{}|{}|{}|{}|{}'.format(tag, name, at, mode, row))
+
+    for at in range(1, N + 1):
+        for mode in ('exc-before', 'exc-after'):
+            rec.case()
+            fresh_copy(cur, work)
+            status, exc, _, _, _, fired = run_step(argv, work, at, mode)
+            if not fired:
+                rec.inconclusive_because('fault {} {} of {} never fired'.format(at, mode, name))
+                continue
+            if exc is None:
+                rec.violation('injected-error-swallowed:' + name, {'statement_index': at, 'mode': mode}, dict(scase, fault=[at, mode, None]), 'fault')
+                continue
+            rec.hit('exception-faults-injected')
+            verdict('error', at, mode)
+        if (at - 1) % sizes['kill_every'] == 0 or at == N:
+            for mode in ('kill-before', 'kill-after'):
+                rec.case()
+                fresh_copy(cur, work)
+                st = run_step_killed(argv, work, at, mode)
+                if not (os.WIFSIGNALED(st) and os.WTERMSIG(st) == 9):
+                    rec.inconclusive_because('child of {} {} {} was not killed (status {})'.format(name, at, mode, st))
+                    continue
+                rec.hit('kill-faults-injected')
+                verdict('kill', at, mode)
+    # rows of executemany
+    for idx, nrows in sorted(rows.items()):
+        if nrows < 1:
+            continue
+        picks = range(nrows) if sizes['rows'] == 'all' else sorted({0, nrows // 2, nrows - 1})
+        for r in picks:
+            for mode in ('exc-row', 'kill-row'):
+                if mode == 'kill-row' and sizes['rows'] != 'all' and r != nrows // 2:
+                    continue
+                rec.case()
+                fresh_copy(cur, work)
+                if mode == 'exc-row':
+                    status, exc, _, _, _, fired = run_step(argv, work, idx, mode, r)
+                    if not fired or exc is None:
+                        rec.inconclusive_because('row fault {}:{} of {} never fired'.format(idx, r, name))
+                        continue
+                else:
+                    st = run_step_killed(argv, work, idx, mode, r)
+                    if not (os.WIFSIGNALED(st) and os.WTERMSIG(st) == 9):
+                        rec.inconclusive_because('child of {} row {}:{} was not killed'.format(name, idx, r))
+                        continue
+                rec.hit('row-faults-injected')
+                verdict('row-' + ('error' if mode == 'exc-row' else 'kill'), idx, mode, r)
+    if len(rec.samples) < 3:
+        rec.sample({'step': name, 'statements': N, 'trace_first': log[:6], 'trace_last': log[-3:], 'executemany_rows': rows,
+                    'tables_written': [t for t in post if post[t] != pre.get(t)]})
+    if os.path.exists(work):
+        os.remove(work)
+    return clean
+
+
+def run_histories(ctx, rng, case, base, tag, nhist):
+    rec = ctx.rec
+    A = [s for s in STEPS if s[0] in ('classify', 'set-zeta-grid', 'set-curvature')]
+    B = [s for s in STEPS if s[0] in ('rise', 'recession')]
+    orders = [(pa, pb) for pa in itertools.permutations(A) for pb in itertools.permutations(B)]
+    work = os.path.join(ctx.workdir, '{}_hist.sqlite3'.format(tag))
+    ref = None
+    ref_order = None
+    for k, (pa, pb) in enumerate(orders[:nhist]):
+        rec.case()
+        fresh_copy(base, work)
+        history = []
+        failed_attempts = 0
+        for name, mk in list(pa) + list(pb):
+            argv = mk(case)
+            # failing attempts before the real one
+            for _ in range(rng.choice([0, 0, 1, 2]) if k else 0):
+                kind = rng.choice(['fault', 'kill'])
+                at = rng.randint(1, 12)
+                if kind == 'fault':
+                    status, exc, _, _, _, fired = run_step(argv, work, at, rng.choice(['exc-before', 'exc-after']))
+                    history.append((name, 'fault@{}'.format(at), 'failed' if exc else 'completed'))
+                    if exc is not None:
+                        failed_attempts += 1
+                    else:
+                        break
+                else:
+                    run_step_killed(argv, work, at, 'kill-before')
+                    history.append((name, 'kill@{}'.format(at), 'killed'))
+                    failed_attempts += 1
+            status, exc, *_ = run_step(argv, work)
+            history.append((name, 'run', 'failed:' + exc.desc['type'] if exc else 'ok'))
+            if rng.random() < 0.4 and k:
+                # duplicate attempt: must fail and change nothing
+                status, exc, *_ = run_step(argv, work)
+                history.append((name, 'again', 'failed' if exc else 'ok'))
+                if exc is not None:
+                    failed_attempts += 1
+        got = dump(work)
+        if ref is None:
+            ref = got
+            ref_order = history
+            if not got.get('recession_interval') or not got.get('rising_interval'):
+                rec.inconclusive_because('reference history did not assemble both curves')
+                return
+        elif got != ref:
+            rec.violation('final-content-depends-on-history',
+                          {'tables': [t for t in got if got[t] != ref.get(t)], 'history': history, 'reference_history': ref_order},
+                          {'dataset': case, 'history': history}, 'history')
+            continue
+        rec.hit('histories-compared')
+        if failed_attempts:
+            rec.hit('histories-with-failed-attempts')
+            rec.mark_nontrivial('{}|hist|{}'.format(tag, k))
+    if os.path.exists(work):
+        os.remove(work)
 
 
 def run(ctx):
-    ctx.rec.inconclusive_because('check not built yet')
+    s = SIZES[ctx.tier]
+    faults.install()
+    try:
+        rng = ctx.rng('atomicity')
+        # work units: (dataset, step) pairs and (dataset, histories), dealt to shards
+        units = [(d, u) for d in range(s['datasets']) for u in list(range(len(STEPS))) + ['hist']]
+        mine = [u for i, u in enumerate(units) if i % ctx.nshards == ctx.shard]
+        for d in sorted({d for d, _ in mine}):
+            drng = core.make_rng(ctx.seed, 'c20-dataset', d)
+            case, base = make_dataset(ctx, drng, d)
+            if base is None:
+                ctx.rec.inconclusive_because('dataset {} could not be loaded'.format(d))
+                continue
+            tag = 'd{}'.format(d)
+            # clean chain of databases: base -> classify -> grid -> curvature -> rise -> recession
+            chain = [base]
+            for name, mk in STEPS:
+                nxt = os.path.join(ctx.workdir, '{}_chain_{}.sqlite3'.format(tag, name))
+                fresh_copy(chain[-1], nxt)
+                status, exc, *_ = run_step(mk(case), nxt)
+                if exc is not None or status != 0:
+                    ctx.rec.inconclusive_because('clean chain failed at {}: {}'.format(name, exc.desc if exc else status))
+                    chain = None
+                    break
+                chain.append(nxt)
+            if chain is None:
+                continue
+            for dd, u in mine:
+                if dd != d:
+                    continue
+                if u == 'hist':
+                    run_histories(ctx, rng, case, base, tag, s['histories'])
+                else:
+                    name, mk = STEPS[u]
+                    enumerate_step_faults(ctx, case, name, mk(case), chain[u], tag, s)
+    finally:
+        faults.uninstall()
+        faults.disable()
 
 
 def replay(ctx, case, module=None):
-    ctx.rec.inconclusive_because('check not built yet')
+    faults.install()
+    try:
+        ds = case['dataset']
+        paths = data.write_case_files(ds, ctx.workdir, 'rp')
+        base = os.path.join(ctx.workdir, 'rp_base.sqlite3')
+        status, exc = data.cli(['load', base, '-p', paths[0], '-e', paths[1], '-z', paths[2], '--timezone', 'UTC'])
+        if module == 'history':
+            run_histories(ctx, core.make_rng('replay'), ds, base, 'rp', 12)
+            return
+        cur = base
+        for name, mk in STEPS:
+            if name == case['step']:
+                break
+            nxt = os.path.join(ctx.workdir, 'rp_{}.sqlite3'.format(name))
+            fresh_copy(cur, nxt)
+            run_step(mk(ds), nxt)
+            cur = nxt
+        enumerate_step_faults(ctx, ds, case['step'], case['argv'], cur, 'rp', SIZES['quick'])
+    finally:
+        faults.uninstall()
+        faults.disable()
